@@ -18,6 +18,8 @@ pub struct ShimState {
     pub log: Vec<ShimOp>,
     /// When set, the next `encrypt_in_place_detached` returns `Err` without touching the cipher
     pub fail_next_encrypt: bool,
+    /// When set, the next `decrypt_in_place_detached` returns `Err` without touching cipher or buffer
+    pub fail_next_decrypt: bool,
     pub recording: bool,
 }
 
@@ -59,10 +61,18 @@ pub fn set_recording(on: bool) {
         s.recording = on;
         s.log.clear();
         s.fail_next_encrypt = false;
+        s.fail_next_decrypt = false;
     })
 }
 pub fn arm_failure() {
     SHIM.with(|s| s.borrow_mut().fail_next_encrypt = true)
+}
+pub fn arm_decrypt_failure() {
+    SHIM.with(|s| s.borrow_mut().fail_next_decrypt = true)
+}
+/// true if the armed failure was still pending (the primitive was not called)
+pub fn disarm_decrypt_failure() -> bool {
+    SHIM.with(|s| std::mem::replace(&mut s.borrow_mut().fail_next_decrypt, false))
 }
 pub fn disarm_failure() -> bool {
     SHIM.with(|s| std::mem::replace(&mut s.borrow_mut().fail_next_encrypt, false))
@@ -128,6 +138,9 @@ impl<C: AeadInPlace> AeadInPlace for ShimImpl<C> {
         tag: &Tag<Self>,
     ) -> aead::Result<()> {
         seam_yield("aead_decrypt");
+        if SHIM.with(|s| std::mem::replace(&mut s.borrow_mut().fail_next_decrypt, false)) {
+            return Err(aead::Error);
+        }
         let r = self.0.decrypt_in_place_detached(nonce, associated_data, buffer, tag);
         SHIM.with(|s| {
             let mut s = s.borrow_mut();
